@@ -56,13 +56,15 @@ type World struct {
 	Case  int
 	Cfg   map[string]interface{}
 
-	Acked   []uint32
-	Maybe   map[int64][]uint32
-	AckLog  []uint32
-	NextWID uint32
-	attachA map[*Conn]int // index into AckLog at attach time
-	rest    http.Handler  // the controller's management API (what an operator or the CSI driver sees)
-	rdv     *rendezvous   // set while an operation's replicas are to answer at the same instant
+	Acked      []uint32
+	Maybe      map[int64][]uint32
+	AckLog     []uint32
+	NextWID    uint32
+	attachA    map[*Conn]int // index into AckLog at attach time
+	statPolls  int
+	snapModels map[string]*snapModel
+	rest       http.Handler // the controller's management API (what an operator or the CSI driver sees)
+	rdv        *rendezvous  // set while an operation's replicas are to answer at the same instant
 	// Net: the controller uses the real backend (backend/remote + rpc) against scripted replica endpoints (net.go)
 	Net        bool
 	lateBudget int  // replies later than the rpc deadline still allowed in this history (net mode)
@@ -307,6 +309,7 @@ func (w *World) CheckSettled(after string) {
 	if w.Dead {
 		return
 	}
+	w.pollStats()
 	if !w.Settle() {
 		w.FailAny([]string{"C05", "C18", "C03", "C13", "C02", "C04", "C15"}, "settle:replica-with-fired-monitor-still-attached:"+after, "a replica whose monitor reported a failure (or was stopped) is still attached after 5s: "+w.Describe())
 		return
@@ -474,6 +477,31 @@ func (w *World) CheckSettled(after string) {
 		w.Res.Count("checkpoint_withdrawals", 1)
 	}
 	w.lastCheckpoint = st.Checkpoint
+}
+
+// pollStats is the monitoring side of a deployment (maya-exporter polls GET /v1/stats every few seconds): a read-only
+// request that arrives at any moment, in particular while a replica that just failed is still listed (mode ERR) and
+// its removal is under way. It runs before the settle wait, always when an ERR entry is listed and else at every
+// fourth settled point. Its answer is not judged here; what it may have done to the bookkeeping is judged by the
+// invariants evaluated after the settle.
+func (w *World) pollStats() {
+	w.statPolls++
+	st := w.C.VerifState()
+	errListed := modeCount(st, types.ERR) > 0
+	if !errListed && w.statPolls%4 != 0 {
+		return
+	}
+	if w.rest == nil {
+		w.rest = crest.NewRouter(crest.NewServer(w.C))
+	}
+	for _, path := range []string{"/v1/stats", "/v1/volumes", "/v1/replicas"} {
+		rec := httptest.NewRecorder()
+		w.rest.ServeHTTP(rec, httptest.NewRequest("GET", path, nil))
+	}
+	w.Res.Count("stats_polls", 1)
+	if errListed {
+		w.Res.Count("stats_polls_with_failed_replica_listed", 1)
+	}
 }
 
 // restView asks the controller's own REST router (in-process) for the volume's
